@@ -174,9 +174,11 @@ def wl_verify(ctx, config, scale=1.0):
                 vcase(ctx, config, pk32, msg, sig[:32] + b32(sv), "s_out_of_range")
         elif kind == 4:
             # R = infinity: any on-curve r, s = e*d
-            Rr = mulG(rng.randrange(1, n)); dd = d0 if has_even_y(P) else n - d0
-            e = I(tagged("BIP0340/challenge", xbytes(Rr) + pk32 + msg)) % n
-            vcase(ctx, config, pk32, msg, xbytes(Rr) + b32(e * dd % n), "R_infinity")
+            dd = d0 if has_even_y(P) else n - d0
+            for _ in range(6):
+                Rr = mulG(rng.randrange(1, n)); m6 = msg if _ == 0 else pools.rbytes(rng, rng.choice((0, 32, 32, 77)))
+                e = I(tagged("BIP0340/challenge", xbytes(Rr) + pk32 + m6)) % n
+                vcase(ctx, config, pk32, m6, xbytes(Rr) + b32(e * dd % n), "R_infinity")
         elif kind == 5:
             # odd-y R: nonce not negated
             k = rng.randrange(1, n); R = mulG(k)
